@@ -65,6 +65,7 @@ def run(ctx: Ctx) -> RuleResult:
     repo = ctx.repo
     res = RuleResult('R-CACHE', 'cache key determines the cached object; guarded load; fall back on any failure with the '
                                 'instance restored; the fall-back rewrites the file')
+    res.default_props = ['C11', 'C12']
     f = repo.func(INIT)
     lm = repo.module('lark.lark')
     allowed = set(lm.const('_LOAD_ALLOWED_OPTIONS'))
@@ -561,7 +562,7 @@ def _verify_used(ctx: Ctx, res: RuleResult):
         ok = ok and not early
     res.ob(site, 'v: every recorded file is compared (recorded digest != current digest -> False; True only after the loop)', ok)
     if not ok:
-        res.finding(v, v.node, 'verify_used_files does not compare every recorded import with its current digest', construct='v:shape')
+        res.finding(v, v.node, 'verify_used_files does not compare every recorded import with its current digest', construct='v:shape', props=['C11', 'C12', 'C17'])
     # pure: no state survives a call (a memo would hide an edit of an imported file made later in the same process)
     from .effects import writes_of
     local_names = set(v.param_names())
